@@ -53,6 +53,11 @@ pub fn cases(tier: &str, seed: u64) -> Vec<PathCase> {
         }
         out.push(PathCase { stratum: "frame", w: n, px: frame, extras: true });
     }
+    // (2b) outlines longer than any symbol's: one closed walk of more than 2^15 unit edges (checkerboards beyond 128 x 128)
+    for n in if thorough { vec![129usize, 130, 150, 182] } else { vec![130usize] } {
+        let checker: Vec<bool> = (0..n * n).map(|i| (i / n + i % n) % 2 == 0).collect();
+        out.push(PathCase { stratum: "bigChecker", w: n, px: checker, extras: false });
+    }
     // (3) random arrays, odd and even dimensions
     for _ in 0..(if thorough { 3000 } else { 500 }) {
         let w = rng.range(1, 40);
